@@ -124,6 +124,29 @@ struct CmpGreater {
   bool operator()(const SetKey& a, const SetKey& b) const { return a.k > b.k; }
 };
 
+// key with an observable moved-from state: a key object the container has moved from compares and hashes like key 99,
+// which is outside the key universe - any use of a moved-from key by the container shows up as a wrong result
+struct MKey {
+  int v = 99;
+  MKey() = default;
+  MKey(int x) : v(x) {} // NOLINT: implicit on purpose, the harness passes plain ints
+  MKey(const MKey&) = default;
+  MKey& operator=(const MKey&) = default;
+  MKey(MKey&& o) noexcept : v(o.v) { o.v = 99; }
+  MKey& operator=(MKey&& o) noexcept {
+    v = o.v;
+    o.v = 99;
+    return *this;
+  }
+  explicit operator int() const { return v; }
+  friend bool operator==(const MKey& a, const MKey& b) { return a.v == b.v; }
+  friend bool operator!=(const MKey& a, const MKey& b) { return a.v != b.v; }
+  friend bool operator<(const MKey& a, const MKey& b) { return a.v < b.v; }
+  friend bool operator>(const MKey& a, const MKey& b) { return a.v > b.v; }
+  friend bool operator<=(const MKey& a, const MKey& b) { return a.v <= b.v; }
+  friend bool operator>=(const MKey& a, const MKey& b) { return a.v >= b.v; }
+};
+
 template <class C, class Cmp>
 struct SetAdapter {
   using Cont = C;
@@ -166,7 +189,7 @@ struct MapAdapter {
       r.ok = res.second;
       r.has_obs = true;
       r.obs = res.first->second;
-      if (res.first->first != k) vrt::fail("wrong_element", "emplace_or_get(%d) returned an iterator to key %d", k, (int)res.first->first);
+      if ((int)res.first->first != k) vrt::fail("wrong_element", "emplace_or_get(%d) returned an iterator to key %d", k, (int)res.first->first);
       break;
     }
     case 2: {
@@ -174,7 +197,7 @@ struct MapAdapter {
       r.ok = res.second;
       r.has_obs = true;
       r.obs = res.first->second;
-      if (res.first->first != k) vrt::fail("wrong_element", "get_or_emplace(%d) returned an iterator to key %d", k, (int)res.first->first);
+      if ((int)res.first->first != k) vrt::fail("wrong_element", "get_or_emplace(%d) returned an iterator to key %d", k, (int)res.first->first);
       break;
     }
     case 3: {
@@ -186,6 +209,7 @@ struct MapAdapter {
       r.ok = res.second;
       r.has_obs = true;
       r.obs = res.first->second;
+      if ((int)res.first->first != k) vrt::fail("wrong_element", "get_or_emplace_lazy(%d) returned an iterator to key %d", k, (int)res.first->first);
       if (res.second && !called) vrt::fail("wrong_element", "get_or_emplace_lazy inserted without calling the factory");
       break;
     }
@@ -606,6 +630,13 @@ template <class R, class H, std::size_t B, bool MEMO>
 using MAPB = MapAdapter<
   harris_michael_hash_map<int, int, policy::reclaimer<R>, policy::hash<H>, policy::buckets<B>, policy::memoize_hash<MEMO>, policy::map_to_bucket<BucketRev>>>;
 
+template <class H>
+struct KH {
+  std::size_t operator()(const MKey& k) const { return H()(k.v); }
+};
+template <class R, class H, std::size_t B, bool MEMO>
+using MAPK = MapAdapter<harris_michael_hash_map<MKey, int, policy::reclaimer<R>, policy::hash<KH<H>>, policy::buckets<B>, policy::memoize_hash<MEMO>>>;
+
 #define MC(name, A, tags) vrt::Cfg{name, &run_m<A>, tags}
 #define COMMA ,
 
@@ -625,12 +656,16 @@ const vrt::Cfg cfgs[] = {
   MC("map_b4_h2_memo_stamp", MAPA<STAMP COMMA Hash2 COMMA 4 COMMA true>, "map,quick"),
   MC("map_b1_rev_memo_he", MAPA<HEd COMMA HashRev COMMA 1 COMMA true>, "map,quick"),
   MC("map_b2_rev_nomemo_qsbr", MAPA<QSBR COMMA HashRev COMMA 2 COMMA false>, "map,quick"),
+  MC("mapk_b1_id_memo_hp", MAPK<HPd COMMA HashId COMMA 1 COMMA true>, "map,quick,movekey"),
+  MC("mapk_b2_rev_nomemo_ebr", MAPK<EBR0 COMMA HashRev COMMA 2 COMMA false>, "map,quick,movekey"),
 #elif MHIST_GROUP == 2
   MC("map_b4_id_nomemo_revbucket_hp", MAPB<HPd COMMA HashId COMMA 4 COMMA false>, "map,quick"),
   MC("map_b1_h2_memo_lfrc", MAPA<LFRC COMMA Hash2 COMMA 1 COMMA true>, "map"),
   MC("map_b2_id_memo_nebr", MAPA<NEBR1 COMMA HashId COMMA 2 COMMA true>, "map"),
   MC("map_b1_const_memo_ebr", MAPA<EBR0 COMMA HashConst COMMA 1 COMMA true>, "map,quick"),
   MC("map_b4_rev_memo_revbucket_stamp", MAPB<STAMP COMMA HashRev COMMA 4 COMMA true>, "map"),
+  MC("mapk_b1_const_nomemo_stamp", MAPK<STAMP COMMA HashConst COMMA 1 COMMA false>, "map,quick,movekey"),
+  MC("mapk_b2_h2_memo_he", MAPK<HEd COMMA Hash2 COMMA 2 COMMA true>, "map,movekey"),
 #else
   #error "MHIST_GROUP"
 #endif
